@@ -341,6 +341,13 @@ def check(run):
                 run.fail('dead-not-failed', 'worker died at +%d s (last refresh +%.0f): is_failed() is still False at death + expiry' % (death, last), rp)
             if real_is_failed(sim, last + E - 1):
                 run.fail('failed-too-early', 'lock last refreshed at +%.0f reported failed already at age %d' % (last, E - 1), rp)
+            if death in offsets[:3] or death % 35 == 0:
+                # once failed, failed at every later instant (hours, days, months after the last refresh) until somebody removes the lock
+                for age in (E + 1, 2 * E, 86400 - 1, 86400, 86400 + 60, 86400 + E - 1, 2 * 86400 + 900, 10 * 86400 + 5, 400 * 86400 + 1234):
+                    run.count('old_lock_ages')
+                    if not real_is_failed(sim, last + age):
+                        run.fail('dead-not-failed', 'worker died at +%d s (last refresh +%.0f): is_failed() is False %d s (%.1f days) after the last refresh' % (death, last, age, age / 86400.0), dict(rp, age=age))
+                        break
             run.corr_programs += 1
     # 3. external removal of the lock file
     for removal in ([10, 299, 300, 301, 1000] if quick else list(range(0, 2 * R * P, 13))):
@@ -451,7 +458,7 @@ def slow(x):
 @TaskGenerator
 def after(y):
     return y * 2
-r = after(slow(20))
+r = after(slow(%(arg)d))
 '''
 
 
@@ -464,7 +471,15 @@ def dead_worker_cleanup(run, expiry, mode='failed-only'):
     d = core.scratch_dir()
     rp = {'kind': 'dead-worker-cleanup', 'mode': mode}
     try:
-        open(os.path.join(d, 'jugfile.py'), 'w').write(KA_JUGFILE)
+        # an argument for which the hash of the locked task ends in 'c' (the ending naive suffix handling of lock file names gets wrong)
+        arg = 20
+        for cand in range(20, 400):
+            open(os.path.join(d, 'jugfile.py'), 'w').write(KA_JUGFILE % {'arg': cand})
+            h_ = core.fresh_python("import jug, jug.task; jug.init('jugfile.py', 'dict_store'); print([t.hash().decode() for t in jug.task.alltasks if t.name.endswith('slow')][0])", cwd=d).stdout.strip()
+            if h_.endswith('c'):
+                arg = cand
+                break
+        open(os.path.join(d, 'jugfile.py'), 'w').write(KA_JUGFILE % {'arg': arg})
         open(os.path.join(d, 'block'), 'w').close()
         jd = 'file_keepalive:' + os.path.join(d, 'ka.jugdata')
         common = ['--jugdir', jd, '--will-cite']
